@@ -58,7 +58,8 @@ def main() -> int:
             verdict["tests_tail"] = [l for l in outt.splitlines() if "passed" in l or "failed" in l][-2:]
         results = {}
         for pid in [a.prop] + [x for x in a.checks.split(",") if x]:
-            rcc, outc = sh([PY, "-m", "vp.check", pid], cwd=ROOT, env=dict(env, VERIF_TIER="quick"), timeout=1500)
+            rcc, outc = sh([PY, "-m", "vp.check", pid], cwd=ROOT,
+                           env=dict(env, VERIF_TIER="quick", VERIF_EVIDENCE_DIR=f"/tmp/seedeval-evidence-{os.getpid()}"), timeout=1500)
             lines = [l for l in outc.splitlines() if l.startswith("VIOLATION") or l.startswith(f"[{pid}]") or l.startswith("KNOWN") or l.startswith("INFRA")]
             results[pid] = {"rc": rcc, "lines": [l[:300] for l in lines][:6]}
             for l in lines:
@@ -91,6 +92,7 @@ def main() -> int:
     finally:
         sh(["git", "-C", "/repo", "worktree", "remove", "--force", str(wt)])
         shutil.rmtree(wt, ignore_errors=True)
+        shutil.rmtree(f"/tmp/seedeval-evidence-{os.getpid()}", ignore_errors=True)
 
 
 if __name__ == "__main__":
